@@ -9,6 +9,9 @@ var specs = []Spec{
 		{Name: "seq", Pkg: "./mon/c02", Procs: 1},
 		{Name: "coop", Pkg: "./mon/chainco", Env: []string{"VERIF_PROP=C02"}},
 	}},
+	{ID: "C03", Level: "exploration", MinDistinct: 50, Engines: []Engine{
+		{Name: "seq", Pkg: "./mon/c03", Procs: 1},
+	}},
 	{ID: "C04", Level: "exploration", MinDistinct: 50, Engines: []Engine{
 		{Name: "seq", Pkg: "./mon/c04", Procs: 1},
 		{Name: "coop", Pkg: "./mon/chainco", Env: []string{"VERIF_PROP=C04"}},
@@ -16,6 +19,12 @@ var specs = []Spec{
 	{ID: "C08", Level: "exploration", MinDistinct: 50, Engines: []Engine{
 		{Name: "seq", Pkg: "./mon/c08", Procs: 1},
 	}},
+}
+
+func init() {
+	specs = append(specs, Spec{ID: "C16", Level: "exploration", MinDistinct: 50, Engines: []Engine{
+		{Name: "seq", Pkg: "./mon/c16", Procs: 1},
+	}})
 }
 
 func findSpec(id string) *Spec {
